@@ -69,6 +69,7 @@ fn main() {
         ("c19", "run") => c19::cmd_run(rest),
         ("c19", "learn") => c19::cmd_learn(rest),
         ("c19", "stress") => c19::cmd_stress(rest),
+        ("c19", "merge") => c19::cmd_merge(rest),
         ("mock", "demo") => mock::cmd_demo(rest),
         _ => {
             eprintln!("unknown command {:?}", &args[..2]);
